@@ -477,6 +477,19 @@ func (fr *Frame) applyContract(in ssa.Instruction, ci calleeInfo, ct *Contract, 
 		if !ct.HasAssigns {
 			post = ex.newMem()
 			post.lost = true
+			// ghost model fields change only through ghost clauses / assigns clauses of contracts. One that no contract other
+			// than the function under verification writes cannot be changed by this callee (stated assumption: the callee
+			// does not call back into the function under verification).
+			for _, mn := range sortedKeys(ex.S.Models) {
+				md := ex.S.Models[mn]
+				if !md.Ghost {
+					continue
+				}
+				if ex.ghostWrittenOnlyByTop(mn) {
+					an, _ := ex.modelArray(mn)
+					post.arrays[an] = ex.memGet(pre, an)
+				}
+			}
 		} else {
 			ec := fr.evalCtx(pre, pre)
 			ec.names = names
@@ -1518,4 +1531,63 @@ func accessorMutator(m string) bool {
 		}
 	}
 	return false
+}
+
+// ghostWrittenOnlyByTop: no contract except the one of the function under verification has a ghost clause or an
+// assigns clause naming model field mn.
+func (ex *Exec) ghostWrittenOnlyByTop(mn string) bool {
+	if ex.ghostWriters == nil {
+		ex.ghostWriters = map[string]map[string]bool{}
+		add := func(m, key string) {
+			if ex.ghostWriters[m] == nil {
+				ex.ghostWriters[m] = map[string]bool{}
+			}
+			ex.ghostWriters[m][key] = true
+		}
+		seen := map[*Contract]bool{}
+		for _, ct := range ex.S.Contracts {
+			if seen[ct] {
+				continue
+			}
+			seen[ct] = true
+			for _, g := range ct.Ghosts {
+				add(g.Model, ct.Key)
+			}
+			for _, st := range ct.Sites {
+				if st.Ghost != nil {
+					add(st.Ghost.Model, ct.Key)
+				}
+			}
+			for _, a := range ct.Assigns {
+				if a.Model != "" {
+					add(a.Model, ct.Key)
+				}
+				if a.All {
+					for mn := range ex.S.Models {
+						add(mn, ct.Key)
+					}
+				}
+			}
+			for _, l := range ct.Loops {
+				for _, a := range l.Assigns {
+					if a.Model != "" {
+						add(a.Model, ct.Key)
+					}
+				}
+			}
+		}
+	}
+	w := ex.ghostWriters[mn]
+	if len(w) == 0 {
+		return true
+	}
+	if ex.topContract == nil {
+		return false
+	}
+	for k := range w {
+		if k != ex.topContract.Key {
+			return false
+		}
+	}
+	return true
 }
